@@ -2664,6 +2664,7 @@ class NetCDFHDF5(NetCDF):
                     if not (
                         i is None
                         or (isinstance(i, Integral) and (i > 0 or i == -1))
+                        or (i == 0 and j == 0)
                     ):
                         raise ValueError(
                             f"Chunksize for dimension position {n} must be "
